@@ -4,7 +4,7 @@ SPEC = {'level': 'exploration',
                  'times passed to Good/Attempt/Connected are > 0 (callers pass the current time; the internal check requires it)',
                  'only the current on-disk format (V4) is round-tripped; the asmap used for re-bucketing is the 59-byte unit-test asmap',
                  'internal consistency check evaluated on every call in 1/8 of the histories, otherwise at check points and at the end through a probe reload'],
- 'stages': [gen('vh_c37', 'c37_addrman', 1200, 24000, min_cases_quick=400,
+ 'stages': [gen('vh_c37', 'c37_addrman', 1200, 24000, min_cases_quick=200,
                 floors={'both-tables-populated': 0.2, 'multi-reference-address': 0.15, 'tried-collision-seen': 0.02, 'tried-entry-evicted-to-new': 0.005,
                         'roundtrip-nonempty': 0.8, 'reload-other-asmap': 0.1, 'reload-adopted': 0.15, 'internal-check-every-call': 0.05, 'hammer-mult==8': 0.01,
                         'select-new-only-hit': 0.05, 'op-getaddr': 0.1},
